@@ -180,6 +180,28 @@ func (m *Machine) callFunc(st *State, fr *Frame, instr ssa.Instruction, fn *ssa.
 			return
 		}
 	}
+	if fn.String() == "(*sync.Once).Do" && !st.pure {
+		// trusted: f runs at most once over all Do calls on this Once; this call either runs it or not
+		m.trusted["(*sync.Once).Do: the function is executed by at most one Do call (this one or an earlier one)"] = true
+		m.trusted["sync.Once objects are used only by the goroutine under verification (their done flag does not change behind its back)"] = true
+		call := instr.(ssa.CallInstruction).Common()
+		op := args[0].(*Ptr)
+		key := m.onceKey(op)
+		a := m.heapGet(st, "once.done", ArrSort(IntSort, BoolSort))
+		doneT := m.ctx.Select(a, key)
+		skip := st.clone()
+		skip.assume(doneT)
+		skip.top().ip++
+		m.trace(skip, "once:skip")
+		m.addEvent(skip, "once.skip", nil, nil)
+		m.pushWork(skip)
+		st.assume(m.ctx.Not(doneT))
+		st.heap["once.done"] = m.ctx.Store(a, key, m.ctx.T)
+		m.trace(st, "once:run")
+		m.addEvent(st, "once.run", nil, nil)
+		m.callValue(st, fr, instr, call.Args[1].Type(), args[1].(*Term), nil, nil, kind)
+		return
+	}
 	if fn.Blocks == nil || (fn.Pkg != nil && fn.Pkg != m.P.SSA) || (fn.Pkg == nil && fn.Origin() == nil && fn.Synthetic == "" ) {
 		if fn.Pkg != m.P.SSA && !(fn.Pkg == nil && fn.Synthetic != "") {
 			rets := m.external(st, fr, instr, fn, args)
@@ -303,6 +325,9 @@ func (m *Machine) builtin(st *State, fr *Frame, instr ssa.Instruction, b *ssa.Bu
 		ch := args[0].(*Term)
 		ord := fmt.Sprint(m.ordinal(fr.fn, instr, ""))
 		m.oblige(st, fr, "safe.close", ord, c.And(c.Neq(ch, c.Int(0)), c.Not(m.chanClosed(st, ch))), m.safeTags(), "close of nil or closed channel")
+		if m.transferred[ch.id] {
+			m.oblige(st, fr, "chan.transferred", ord, c.F, m.safeTags(), "close of a channel whose ownership was handed to a spawned goroutine (ownsChan)")
+		}
 		if ct, ok := cc.Args[0].Type().Underlying().(*types.Chan); ok && strings.Contains(m.chanInvOf(ct.Elem()), "neverclosed") {
 			m.oblige(st, fr, "chan.neverclosed", ord, c.F, m.safeTags(), "channels of "+m.ts.typeName(ct.Elem())+" are never closed (channel invariant)")
 		}
@@ -724,11 +749,14 @@ func init() {
 			if e == nil {
 				return m.ts.Zero(rt)
 			}
-			if ai := m.constIntArg(instr, 2, args[2]); ai < len(e.Args) {
+			if ai := m.constIntArg(instr, 2, args[2]); ai < len(e.Args) && e.Args[ai] != nil {
 				return e.Args[ai]
 			}
-			m.problem("evArg: event %q has no argument %d", constStringArg(instr, 0), m.constIntArg(instr, 2, args[2]))
-			return m.ts.Zero(rt)
+			// the event has no such argument (e.g. a select with fewer cases than the clause expects):
+			// an unconstrained value, so that the clause cannot be proved from it
+			v := m.ts.FreshValue("noarg", rt)
+			m.assumeWellFormed(st, rt, v)
+			return v
 		},
 		"evRet": func(m *Machine, st *State, fr *Frame, instr ssa.Instruction, fn *ssa.Function, args []Value) Value {
 			if st.opaque != 0 {
@@ -739,7 +767,12 @@ func init() {
 			if e == nil {
 				return m.ts.Zero(rt)
 			}
-			return e.Rets[m.constIntArg(instr, 2, args[2])]
+			if ri := m.constIntArg(instr, 2, args[2]); ri < len(e.Rets) && e.Rets[ri] != nil {
+				return e.Rets[ri]
+			}
+			v := m.ts.FreshValue("noret", rt)
+			m.assumeWellFormed(st, rt, v)
+			return v
 		},
 		"sameArray": func(m *Machine, st *State, fr *Frame, instr ssa.Instruction, fn *ssa.Function, args []Value) Value {
 			return m.ctx.Eq(args[0].(*Slice).Arr, args[1].(*Slice).Arr)
@@ -910,6 +943,24 @@ func init() {
 				ss.Off = m.ts.IdxConst(0)
 			}
 			return ss
+		},
+		"onceDone": func(m *Machine, st *State, fr *Frame, instr ssa.Instruction, fn *ssa.Function, args []Value) Value {
+			a := m.heapGet(st, "once.done", ArrSort(IntSort, BoolSort))
+			return m.ctx.Select(a, m.onceKey(args[0].(*Ptr)))
+		},
+		"ownsChan": func(m *Machine, st *State, fr *Frame, instr ssa.Instruction, fn *ssa.Function, args []Value) Value {
+			ch := args[0].(*Term)
+			switch {
+			case m.assumingPre:
+				m.ownedChans[ch.id] = true
+				m.trusted["ownsChan: the spawner created the channel, handed it to this goroutine alone and never closes it (checked at the go statement)"] = true
+				return m.ctx.T
+			case m.spawnLocal != nil:
+				ok := m.spawnLocal[ch.id]
+				m.transferred[ch.id] = true
+				return m.ctx.Bool(ok)
+			}
+			return m.ctx.Bool(m.isLocalRef(st, ch) || m.ownedChans[ch.id])
 		},
 		"closed": func(m *Machine, st *State, fr *Frame, instr ssa.Instruction, fn *ssa.Function, args []Value) Value {
 			return m.chanClosed(st, args[0].(*Term))
@@ -1267,4 +1318,11 @@ func (m *Machine) pureCallBody(st *State, fn *ssa.Function, args []Value) []Valu
 	m.bodyOf = fn
 	defer func() { m.bodyOf = nil }()
 	return m.pureCall(st, fn, args, nil)
+}
+
+func (m *Machine) onceKey(p *Ptr) *Term {
+	if p.Path != "" || p.Idx != nil {
+		panic(unsupported("sync.Once embedded in a struct or array"))
+	}
+	return p.Ref
 }
